@@ -73,6 +73,12 @@ impl PutQuery {
             }
         }
 
+        if self.inflight_requests.is_empty() {
+            // None of the nodes gave us a write token (for example they were found
+            // by a find_node lookup), so nothing was sent and nothing will ever complete.
+            Err(PutQueryError::NoClosestNodes)?;
+        }
+
         Ok(())
     }
 
